@@ -163,10 +163,13 @@ func factsAuth() {
 				countIn(evs, iElse, iBypEnd, "call", `^sta\.Panel\.GetUser\(ci\.UID\)$`) == 1
 		}
 		boolFact(g, "bypassSplit", okSplit, "if IsBypass(uid) GetBypassUser else GetUser")
-		// what happens when GetSession fails: neither relay nor reply
+		// what happens when GetSession fails (session cap reached, or the cached active user's credit / expiry no longer allows a new session)
 		if iGetSErr > 0 {
 			e := matchingEnd(evs, iGetSErr)
-			boolFact(g, "getSessionErrGoesWeb", countIn(evs, iGetSErr, e, "call", `^goWeb\(\)$`) > 0, "GetSession error branch calls goWeb()")
+			iWeb := idx(evs[:e], iGetSErr, "call", `^goWeb\(\)$`)
+			iRet := idx(evs[:e], iGetSErr, "return", `^return$`)
+			boolFact(g, "getSessionErrGoesWeb", iWeb > iGetSErr && iRet > iWeb && countIn(evs, iGetSErr, e, "call", `^conn\.`) == 0,
+				"GetSession error branch: …; goWeb(); return (the refused connection is handled as web traffic)")
 			boolFact(g, "getSessionErrReturns", countIn(evs, iGetSErr, e, "return", ``) == 1 && countIn(evs, iGetSErr, e, "call", `finishHandshake`) == 0, "GetSession error branch returns without a reply")
 		} else {
 			unrec(g, "getSessionErrGoesWeb", "GetSession error branch not found")
